@@ -67,6 +67,14 @@ def run(tier, out, model_ok, proof):
         if rng.random() < 0.3:
             d = d[:rng.randrange(len(d) + 1)]
         cases.append(treecorr.single_file_case("z%d" % i, bytes(d)))
+    # arbitrary PASTE graphs: chains into cycles, any declaration order, as one file or split
+    C10 = importlib.import_module("checks.C10")
+    for i in range(4000 if big else 500):
+        roots = C10.gen_macro_digraph(rng)
+        if rng.random() < 0.25:
+            cases.append(treecorr.project_case("mg%d" % i, C09.split_project(rng, roots)))
+        else:
+            cases.append(treecorr.single_file_case("mg%d" % i, C09.render_nodes(roots)))
     for g in C14.graph_cases(rng, 2000 if big else 250):
         g = dict(g)
         g["id"] = "g_" + g["id"]
@@ -113,7 +121,7 @@ def run(tier, out, model_ok, proof):
     out.coverage.update({
         "evaluations": len(cases),
         "distinct_nontrivial": len(set(json.dumps(c["files"], sort_keys=True) for c in cases)),
-        "rule": "every formerly crashing input, a missing and an empty root file through kit.NewJapi, random bytes, directive-like documents, mutated corpus files, random directive sequences, perturbed structured documents as files and include trees, include graphs with cycles/missing files/directories, three large inputs; each is built by kit.NewJApiFromFile in a worker whose death is attributed to the case; outcome must be catalog or error; wall time per case is recorded",
+        "rule": "every formerly crashing input, a missing and an empty root file through kit.NewJapi, random bytes, directive-like documents, mutated corpus files, random directive sequences, arbitrary MACRO/PASTE graphs (chains into cycles, any declaration order), perturbed structured documents as files and include trees, include graphs with cycles/missing files/directories, three large inputs; each is built by kit.NewJApiFromFile in a worker whose death is attributed to the case; outcome must be catalog or error; wall time per case is recorded",
         "samples": [{n: bytes.fromhex(h).decode("latin1")[:100] for n, h in c["files"].items()} for c in cases[14:17]],
         "outcomes": kinds,
         "time_ms": {"median": ms[len(ms) // 2] if ms else 0, "p99": ms[int(len(ms) * 0.99)] if ms else 0, "max": ms[-1] if ms else 0},
